@@ -6,6 +6,8 @@ package png
 // C06/C07/C08: the eXIf chunk is handed to the Exif reader exactly like a TIFF file: the stream is positioned at the chunk's
 // TIFF header, byte order and first-IFD offset are those stored in that header (isSigAt/sigLEat/sigBEat/le32At/be32At:
 // /verif/specs/tiff.spec), whatever way the reader chunks the stream (only io.ReadFull and Seek are used).
+//@ spec pngSigAt(r, p) = data(r, p) == 0x89 && data(r, p+1) == 0x50 && data(r, p+2) == 0x4E && data(r, p+3) == 0x47 && data(r, p+4) == 0x0D && data(r, p+5) == 0x0A && data(r, p+6) == 0x1A && data(r, p+7) == 0x0A
+//@ spec exifTypeAt(r, p) = data(r, p) == 0x65 && data(r, p+1) == 0x58 && data(r, p+2) == 0x49 && data(r, p+3) == 0x66
 //@ func ScanPngHeader
 //@   props C01 C02 C06 C07 C08
 //@   entry
@@ -13,4 +15,8 @@ package png
 //@   ensures [C06 C07 C08] err == nil ==> isSigAt(r, pos(r)) && pos(r) + 8 <= lim(r) && header.TiffHeaderOffset == uint32(pos(r)) && header.FirstIfd == ifds.IFD0 && header.ImageType == imagetype.ImagePNG
 //@   ensures [C06 C07] err == nil && sigLEat(r, pos(r)) ==> header.ByteOrder == utils.LittleEndian && header.FirstIfdOffset == le32At(r, pos(r) + 4)
 //@   ensures [C06 C07] err == nil && sigBEat(r, pos(r)) ==> header.ByteOrder == utils.BigEndian && header.FirstIfdOffset == be32At(r, pos(r) + 4)
+// C06, other chunks have no influence: the chunk walk gives up (on a stream that starts with the PNG signature and has no I/O
+// fault) only at the end of the stream, or inside an eXIf chunk whose data is not a TIFF header - never at another chunk.
+//@   ensures [C06] err != nil && !fault(r) && old(pos(r)) + 8 <= lim(r) && pngSigAt(r, old(pos(r))) ==> pos(r) == lim(r) || (pos(r) >= old(pos(r)) + 24 && exifTypeAt(r, pos(r) - 12))
+//@   loop 0 invariant pos(r) >= old(pos(r)) + 8
 //@   loop 0 decreases lim(r) - pos(r)
